@@ -2,8 +2,10 @@ CONSTANTS
   Lines <- MCLines
   Ranges <- MCRanges
   Modes <- MCModes
+  AutoVoas <- MCAutoVoas
   SkipZero = FALSE
-INIT Init
+  StackVoa = FALSE
+INIT MCInit
 NEXT Next
 INVARIANT TypeOK
 INVARIANT BudgetClosedEachStep
@@ -14,4 +16,5 @@ INVARIANT SingleStepKeepsTheDesign
 INVARIANT GainModeHasNoSweep
 INVARIANT PowersReported
 INVARIANT NeverAboveMaximum
+INVARIANT VoaInvisibleDownstream
 PROPERTY SweepTouchesOnlyThePathAmplifiers
